@@ -234,6 +234,7 @@ func (f *faultStore) Iterate(prefix kvstore.KeyPrefix, consumer kvstore.Iterator
 // hands out its own, shows up in the raw bytes compared after every step.
 type codecBufs struct {
 	scratch bool
+	varKeys bool // TypedStore keys encode with variable length (see encKeyVar): one key's encoding can be a prefix of another's
 	val     [8]byte
 	key     [2]byte
 }
@@ -248,13 +249,30 @@ func (c *codecBufs) encVal(v uint64) []byte {
 }
 
 func (c *codecBufs) encKey(k uint16) ([]byte, bool) {
-	b, ok := encU16(k)
+	b, ok := c.encKeyRaw(k)
 	if !ok || !c.scratch {
 		return b, ok
 	}
 	copy(c.key[:], b)
 
-	return c.key[:], true
+	return c.key[:len(b)], true
+}
+
+// encKeyRaw / decKeyRaw: the key codec without injection and without buffer games, in the flavour of this world.
+func (c *codecBufs) encKeyRaw(k uint16) ([]byte, bool) {
+	if c.varKeys {
+		return encKeyVar(k)
+	}
+
+	return encU16(k)
+}
+
+func (c *codecBufs) decKeyRaw(b []byte) (uint16, bool) {
+	if c.varKeys {
+		return decKeyVar(b)
+	}
+
+	return decU16(b)
 }
 
 // consumed: a decoder is done with its input.
@@ -308,6 +326,37 @@ func encU16(k uint16) ([]byte, bool) {
 	}
 
 	return []byte{byte(k >> 8), byte(k)}, true
+}
+
+// Variable-length key codec (not prefix-free): keys below 256 encode as one byte, the others as two bytes big-endian;
+// 0xFFFF is unencodable.  The encoding of k < 256 is a proper prefix of the encodings of 256*k .. 256*k+255, so a method
+// that confuses "this key" with "keys with this prefix" (Delete vs DeletePrefix, Has by iteration) is exposed.
+// Decoding accepts only canonical encodings (one byte, or two bytes with a non-zero first byte).
+func encKeyVar(k uint16) ([]byte, bool) {
+	if k == 0xffff {
+		return nil, false
+	}
+	if k < 256 {
+		return []byte{byte(k)}, true
+	}
+
+	return []byte{byte(k >> 8), byte(k)}, true
+}
+
+func decKeyVar(b []byte) (uint16, bool) {
+	switch len(b) {
+	case 1:
+		return uint16(b[0]), true
+	case 2:
+		if b[0] == 0 {
+			return 0, false
+		}
+		k := uint16(b[0])<<8 | uint16(b[1])
+
+		return k, k != 0xffff
+	}
+
+	return 0, false
 }
 
 func decU16(b []byte) (uint16, bool) {
@@ -864,7 +913,8 @@ func newTSWorld() *tsWorld {
 		func(b []byte) (uint16, int, error) {
 			pos := w.decCalls
 			w.decCalls++
-			k, ok := decU16(b)
+			k, ok := w.bufs.decKeyRaw(b)
+			n := len(b)
 			w.bufs.consumed(b)
 			if w.flt.dec[pos] || !ok {
 				w.failed("K", "err:deck")
@@ -873,7 +923,7 @@ func newTSWorld() *tsWorld {
 			}
 			w.trace = append(w.trace, "K")
 
-			return k, 2, nil
+			return k, n, nil
 		},
 		func(v uint64) ([]byte, error) {
 			if w.flt.encV || v == maxU64 {
@@ -965,7 +1015,7 @@ func (w *tsWorld) expectIterate(prefix []byte, bwd bool, stop int, flt tsFaults)
 		if i == flt.kvAfter {
 			return "iter err:kv " + showPairs(got)
 		}
-		kd, ok := decU16([]byte(k))
+		kd, ok := w.bufs.decKeyRaw([]byte(k))
 		if !ok || flt.dec[2*i] {
 			return "iter err:deck " + showPairs(got)
 		}
@@ -1004,7 +1054,7 @@ func (w *tsWorld) expectIterateKeys(prefix []byte, bwd bool, stop int, flt tsFau
 		if i == flt.kvAfter {
 			return "iterk err:kv [" + strings.Join(got, " ") + "]"
 		}
-		kd, ok := decU16([]byte(k))
+		kd, ok := w.bufs.decKeyRaw([]byte(k))
 		if !ok || flt.dec[i] {
 			return "iterk err:deck [" + strings.Join(got, " ") + "]"
 		}
@@ -1024,6 +1074,17 @@ func (w *tsWorld) exec(r *hx.Run, f []string) string {
 		return w.bufs.setFlavour(f[1])
 	case "store":
 		return w.fs.setFlavour(f[1])
+	case "keys":
+		switch f[1] {
+		case "var":
+			w.bufs.varKeys = true
+		case "fixed":
+			w.bufs.varKeys = false
+		default:
+			return "bad-op"
+		}
+
+		return "ok"
 	case "rawset":
 		k, v := hx.UnHex(f[1]), hx.UnHex(f[2])
 		w.base.Set(k, v)
@@ -1058,7 +1119,7 @@ func (w *tsWorld) exec(r *hx.Run, f []string) string {
 		case "get", "has", "del", "set":
 			kn, _ := strconv.ParseUint(f[1], 10, 16)
 			k := uint16(kn)
-			kb, kok := encU16(k)
+			kb, kok := w.bufs.encKeyRaw(k)
 			switch f[0] {
 			case "get":
 				var v uint64
